@@ -103,6 +103,7 @@ type Violation struct {
 	Confirmed bool
 	ReplayPath string
 	Known   string
+	Dirty   bool // the failing condition reads uninitialised allocator memory
 }
 
 type DrawVal struct {
@@ -158,6 +159,7 @@ type Exec struct {
 	unsatMemo map[uint32]*PCNode
 	symAddr bool
 	cur *State
+	lastBad *Term
 	deadline time.Time
 	inAtomic bool
 	cvc5Time time.Duration
@@ -591,7 +593,9 @@ func (ex *Exec) check(st *State, bad *Term, kind, msg string) {
 	r := ex.sat(st.pc, bad)
 	switch r {
 	case Sat:
+		ex.lastBad = bad
 		ex.report(st, kind, msg)
+		ex.lastBad = nil
 		ex.endModel()
 	case Unknown:
 		ex.endModel()
@@ -659,8 +663,64 @@ func (ex *Exec) report(st *State, kind, msg string) {
 		return
 	}
 	v := &Violation{Kind: kind, Site: site, Msg: msg, Harness: ex.harness, Stack: ex.stack(st)}
+	v.Dirty = ex.lastBad != nil && ex.dependsOnDirty(ex.lastBad, map[uint32]bool{})
 	v.Draws = ex.modelDraws(st)
+	if ex.lastBad != nil && kind == "assert" {
+		// prefer a model whose input bytes are non-zero: fresh native memory is usually zero, so a
+		// counterexample that relies on "garbage != my zero bytes" would not replay
+		if pref := ex.nonzeroPreference(st); pref != nil {
+			ex.endModel()
+			if ex.sat(st.pc, ex.ts.BAnd(ex.lastBad, pref)) == Sat {
+				v.Draws = ex.modelDraws(st)
+			} else {
+				ex.endModel()
+				ex.sat(st.pc, ex.lastBad) // restore a model context for the caller
+			}
+		}
+	}
 	ex.viols = append(ex.viols, v)
+}
+
+// dependsOnDirty: does t read memory handed out uninitialised by dirtmake / mcache?
+func (ex *Exec) dependsOnDirty(t *Term, seen map[uint32]bool) bool {
+	if t == nil || seen[t.id] {
+		return false
+	}
+	seen[t.id] = true
+	if t.Op == OSelect && t.Arr != nil && (strings.HasPrefix(t.Arr.Name, "dirty!") || strings.HasPrefix(t.Arr.Name, "mcache!")) {
+		return true
+	}
+	return ex.dependsOnDirty(t.A, seen) || ex.dependsOnDirty(t.B, seen) || ex.dependsOnDirty(t.C, seen)
+}
+
+// nonzeroPreference: every byte of a drawn input that the solver context mentions is non-zero
+func (ex *Exec) nonzeroPreference(st *State) *Term {
+	draws := map[*Arr]bool{}
+	for _, d := range st.draws {
+		if d.Kind == "bytes" && d.Arr != nil {
+			draws[d.Arr] = true
+		}
+	}
+	if len(draws) == 0 {
+		return nil
+	}
+	var pref *Term
+	n := 0
+	for _, t := range ex.ts.tab {
+		if t.Op == OSelect && draws[t.Arr] && ex.msolver.defined[t.id] {
+			c := ex.ts.BNot(ex.ts.Eq(t, ex.ts.Const(8, 0)))
+			if pref == nil {
+				pref = c
+			} else {
+				pref = ex.ts.BAnd(pref, c)
+			}
+			n++
+			if n > 64 {
+				break
+			}
+		}
+	}
+	return pref
 }
 
 func (ex *Exec) modelDraws(st *State) []DrawVal {
